@@ -773,13 +773,22 @@ def _offset_roll(ctx, repo, f: FuncInfo) -> None:
     """R-OFFSETPIX for one builder."""
     ctx.require({"offset", "sampling"} <= set(f.params), f"{f.qualname}: parameters offset/sampling not found")
     rolls = [c for c in walk_no_nested(f.node) if isinstance(c, ast.Call) and _last(c) == "roll"]
+    df = DataFlow(f.node)
+    if len(rolls) > 1:
+        # a roll whose shift does not depend on the offset (centring by half the size, R-MASKORIGIN) is not the offset roll
+        def by_offset(c_: ast.Call) -> bool:
+            sh = kw(c_, "shift") or (c_.args[1] if len(c_.args) > 1 else None)
+            if sh is None:
+                return True
+            sl = df.backward_slice(df.cfg.node_of(_enclosing_stmt(f, c_)).idx, sh)
+            return "offset" in sl.params
+        rolls = [c_ for c_ in rolls if by_offset(c_)]
     ctx.require(len(rolls) == 1, f"{f.qualname}: expected one roll applying the detector offset, found {len(rolls)}")
     c = rolls[0]
     args = list(c.args)
     shift = kw(c, "shift") or (args[1] if len(args) > 1 else None)
     axes = kw(c, "axis") or (args[2] if len(args) > 2 else None)
     ctx.require(shift is not None and axes is not None, f"{f.qualname}: roll without shift/axis")
-    df = DataFlow(f.node)
     st = _enclosing_stmt(f, c)
     at = df.cfg.node_of(st).idx
     pair, node = _pair_literal(df, at, shift, f, "the shift of the offset roll")
@@ -1048,3 +1057,100 @@ def run(ctx) -> None:  # noqa: F811
         steps += [lambda f=f: _freqgrid(ctx, repo, f), lambda f=f: _offset_roll(ctx, repo, f)]
     steps += [lambda: _radius_is_sum_of_squares(ctx, repo), lambda: _labels(ctx, repo), lambda: _accumulate(ctx, repo)]
     _run_deferring(ctx, steps, _inner_run_c12c)
+
+
+# ---- added after the seeded change C13-r4seed3: float floor division in the bin index of an integration limit
+_inner_run_c12d = run
+
+
+def run(ctx) -> None:  # noqa: F811
+    from ..rules import deferred
+    from . import c13
+
+    ctx.rule("R-FLOATFLOOR", "(the rule of C13, a necessary condition here too) " + c13.FLOATFLOOR_TEXT + ".  For the "
+             "detector-agreement property: a FlexibleAnnularDetector with a fractional step size (0.1 mrad) publishes "
+             "that step as the radial sampling; integrate_radial(inner, outer) with the detector's own limits puts "
+             "both limits on bin edges, and an index formed with float `//` drops the outermost bin, so the result "
+             "differs from the AnnularDetector with the same limits")
+    deferred.run(ctx, lambda: c13.floatfloor(ctx), _inner_run_c12d)
+
+
+# ---- added after the seeded change C12-r5seed0: the pixel at which the zero frequency of the mask sits
+_inner_run_c12e = run
+
+
+def _mask_builders(repo) -> list[FuncInfo]:
+    """Module-level builders of abtem.measurements that lay angular limits over a pattern in either arrangement:
+    the functions with the parameters gpts, sampling, inner, outer and the boolean fftshift."""
+    mod = repo.module(MEAS)
+    out = [f for f in mod.functions.values() if {"gpts", "sampling", "inner", "outer", "fftshift"} <= set(f.params)]
+    return sorted(out, key=lambda f: f.name)
+
+
+def _maskorigin(ctx, repo) -> None:
+    from ..rules import maskorigin as mo
+
+    builders = _mask_builders(repo)
+    names = {f.name for f in builders}
+    ctx.require({"_annular_detector_mask", "_polar_detector_bins"} <= names,
+                f"{MEAS}: the mask / bin builders with an fftshift flag were not found ({sorted(names)})")
+    for f in builders:
+        arms = {}
+        for b in (False, True):
+            val, it = mo.analyse(repo, f, "fftshift", b)
+            arm = f"{f.qualname}:fftshift={b}"
+            for where, node, a1, a2 in it.conflicts:
+                ctx.violation("R-MASKORIGIN", f"{arm}:element-wise", f.loc(node) if where == f.qualname else f.where,
+                              f"in {where} arrays in different pixel arrangements are combined element-wise along "
+                              f"pattern axis {a1.k}: one is {mo.describe(a1)}, the other {mo.describe(a2)}; the value "
+                              "of one pixel is combined with the coordinate of another", key_detail="mixed")
+            if isinstance(val, mo.Unknown):
+                raise AnalysisError(f"{arm}: the arrangement of the result cannot be read ({val.why})")
+            if not (isinstance(val, mo.Arr) and not val.masked and len(val.axes) == 2
+                    and all(a is not None for a in val.axes)):
+                raise AnalysisError(f"{arm}: the result is not a two-dimensional array over the two frequency axes")
+            arms[b] = val
+            for k, a in enumerate(val.axes):
+                construct = f"{arm}:axis {k}"
+                if a.k != k:
+                    ctx.violation("R-MASKORIGIN", construct, f.where,
+                                  f"array axis {k} of the result carries the frequency coordinate of pattern axis {a.k}",
+                                  key_detail="axes")
+                    continue
+                v = mo.judge_origin(a, centred=b)
+                extra = ""
+                if b and not v.ok:
+                    n = mo.count_centrings(a)
+                    extra = (f" ({n} centring operation{'s' if n != 1 else ''} on this arm: "
+                             f"{', '.join(e for e in a.events if e != 'fftfreq') or 'none'}; exactly one is needed, "
+                             "fftshift or an explicit vector with origin n//2)")
+                ctx.check(v.ok, "R-MASKORIGIN", construct, f.where, v.text,
+                          v.text + extra + (". A pattern with fftshift=True is fftshift(FFT order): zero frequency at "
+                                            "index n//2" if b else ". A pattern with fftshift=False is in FFT order: "
+                                                                   "zero frequency at index 0"), key_detail="origin")
+        for k in (0, 1):
+            s0, s1 = arms[False].axes[k].step, arms[True].axes[k].step
+            if s0 is None or s1 is None:
+                raise AnalysisError(f"{f.qualname}: the pitch of the frequency coordinate of axis {k} cannot be read")
+            ctx.check(s0 == s1, "R-MASKORIGIN", f"{f.qualname}:pitch axis {k}", f.where,
+                      f"both arms use the pitch {s0.key()[:60]} along axis {k}",
+                      f"along axis {k} the fftshift=True arm measures the limits on a coordinate with pitch "
+                      f"{s1.key()[:80]}, the fftshift=False arm with pitch {s0.key()[:80]}: the same limits select "
+                      "different angles in the two arrangements", key_detail="pitch")
+
+
+def run(ctx) -> None:  # noqa: F811
+    from ..rules import deferred
+
+    ctx.rule("R-MASKORIGIN", "for each value of their `fftshift` flag, _annular_detector_mask and _polar_detector_bins "
+             "(enumerated: the builders of abtem.measurements with gpts/sampling/inner/outer/fftshift) put the zero "
+             "frequency of every axis of the mask at the pixel where the pattern has it: index 0 (FFT order, "
+             "fftfreq/spatial_frequencies) when the flag is false and index n//2 when it is true, reached by exactly "
+             "one centring — fftshift of the mask or of the vectors (fftshift rolls by n//2, ifftshift by -(n//2), "
+             "which differs for odd n), or an explicit vector (arange(n) - c) * dk whose origin c is n//2 as a normal "
+             "form with FLOORDIV atoms ((n-1)//2, n/2, (n+1)//2 differ for one parity) and whose pitch dk is that of "
+             "the other arm.  Decided by abstract interpretation of the builder per arm (sa/rules/maskorigin.py); "
+             "arrays combined element-wise must be in the same arrangement.  Otherwise the annular mask of "
+             "DiffractionPatterns.integrate_radial is displaced by a pixel for one parity of the pattern size and no "
+             "longer agrees with the detectors that integrate un-shifted patterns or use the other builder")
+    deferred.run(ctx, lambda: _maskorigin(ctx, ctx.repo), _inner_run_c12e)
